@@ -259,7 +259,7 @@ def main():
             M.append(dict(name="benign-agent:" + os.path.basename(d.rstrip("/")), props=[], run=ALL, edits=[], patch=d + "patch.diff", note=meta.get("summary", ""), benign=True))
     todo = [m for m in M if not args or any(a in m["name"] for a in args)]
     for m in todo:
-        sh("git checkout -- .", cwd=REPO)
+        sh("git checkout -- . && git clean -fdq", cwd=REPO)
         err = apply(m)
         r = dict(expected=m["props"], note=m["note"])
         if err:
@@ -290,7 +290,7 @@ def main():
         else:
             print(m["name"], "caught by", r["caught_by"], "expected", m["props"], "" if (set(m["props"]) & set(r["caught_by"]) or not m["props"]) else "   <<<<<< MISSED", flush=True)
         json.dump(results, open(resf, "w"), indent=1)
-    sh("git checkout -- .", cwd=REPO)
+    sh("git checkout -- . && git clean -fdq", cwd=REPO)
     if "--keep" not in sys.argv:
         sh(f"git -C /repo worktree remove --force {REPO}")
         shutil.rmtree(SCR, ignore_errors=True)
